@@ -1002,6 +1002,16 @@ def np_repeat(ex, a, n):
             r = ops.seq_repeat(ex, a, n)
             r.kind = "array"
             return r
+        if not isinstance(ln, int):
+            # symbolic length known to be 1 on this path
+            ex.p.solver.push()
+            ex.p.solver.add(ln != 1)
+            one = ex.p.solver.check() == z3.unsat
+            ex.p.solver.pop()
+            if one:
+                r = ops.seq_repeat(ex, SeqV.of("array", [ops.seq_get(ex, a, 0)]), n)
+                r.kind = "array"
+                return r
     raise Unsupported("numpy.repeat of a non-singleton")
 
 
@@ -1162,6 +1172,8 @@ BUILTINS = {
     "numpy.zeros_like": np_zeros_like,
     "numpy.full": np_full,
     "re.compile": lambda ex, pattern, *a: RegexV(pattern),
+    "open": lambda ex, *a, **k: b_open(ex, *a, **k),
+    "pathlib.Path": lambda ex, *a, **k: make_path(ex, *a, **k),
 }
 
 
@@ -1230,6 +1242,13 @@ class RangeDiffV:
 
 
 def method_special(ex, recv, name, args, kw):
+    if isinstance(recv, FileV) and name == "write":
+        io_log(ex).append(("write", recv, args[0]))
+        return None
+    if isinstance(recv, Obj) and recv.cls == "Path":
+        if name == "unlink":
+            io_log(ex).append(("unlink", recv, kw.get("missing_ok", False)))
+            return None
     return NOATTR
 
 
@@ -1552,7 +1571,13 @@ def str_method(ex, s, name, args, kw):
                 raise Unsupported("join of non-sequence")
             return getattr(s, name)(*args)
     if name == "join" and isinstance(s, str):
-        items = ops.iter_concrete(ex, args[0]) if not isinstance(args[0], MapIterV) else ops.iter_concrete(ex, args[0])
+        a0 = args[0]
+        if isinstance(a0, Obj) and "__records__" in a0.fields:
+            a0 = a0.fields["__records__"]
+        if isinstance(a0, SeqV) and not a0.is_concrete_len():
+            used("str.join over a list: kept structured (separator, parts)")
+            return JoinV(s, a0.copy())
+        items = ops.iter_concrete(ex, a0)
         parts = []
         for i, it in enumerate(items):
             if i:
@@ -1571,9 +1596,8 @@ def str_method(ex, s, name, args, kw):
         if name == "split" and len(args) == 1 and args[0] == "\n":
             return split_lines(ex, s)
         if name == "lower":
-            used("str.lower(): uninterpreted, idempotent")
-            f = z3.Function("str_lower", z3.StringSort(), z3.StringSort())
-            return Sym(f(s.t), "str")
+            used("str.lower(): uninterpreted function of the string")
+            return Sym(STRLOWER(s.t), "str")
         if name == "endswith" and isinstance(args[0], str):
             return mk_bool(z3.SuffixOf(z3.StringVal(args[0]), s.t))
         if name == "startswith" and isinstance(args[0], str):
@@ -1671,6 +1695,12 @@ def regex_method(ex, rx: RegexV, name, args, kw):
 
 
 def obj_attr(ex, o: Obj, attr):
+    if o.cls == "Path":
+        if attr == "name":
+            return Sym(PATHNAME(term(o.fields["str"])), "str")
+        from .engine import LibMethod
+
+        return LibMethod(o, attr)
     if "__records__" in o.fields and attr in ("append", "clear", "extend", "copy", "index", "pop"):
         from .engine import LibMethod
 
@@ -1732,8 +1762,55 @@ def instantiate_special(ex, cv, args, kw):
     return NOATTR
 
 
+class JoinV:
+    """sep.join(seq) for a sequence of symbolic length (kept structured; equal iff separator and parts are equal)"""
+
+    def __init__(self, sep, seq):
+        self.sep, self.seq = sep, seq
+
+
+class FileV:
+    def __init__(self, path, mode, newline, encoding):
+        self.path, self.mode, self.newline, self.encoding = path, mode, newline, encoding
+
+
+PATHNAME = z3.Function("path_name", z3.StringSort(), z3.StringSort())
+STRLOWER = z3.Function("str_lower", z3.StringSort(), z3.StringSort())
+
+
+def io_log(ex):
+    return ex.p.ghost.setdefault("io", [])
+
+
+def b_open(ex, path, mode="r", **kw):
+    used("open(path, mode, newline=, encoding=): axiomatised file object (see DESIGN C17)")
+    f = FileV(path, mode, kw.get("newline"), kw.get("encoding"))
+    io_log(ex).append(("open", f))
+    return f
+
+
+def make_path(ex, x):
+    if isinstance(x, Obj) and x.cls == "Path":
+        return Obj("Path", {"str": x.fields["str"]})
+    if isinstance(x, str) or (isinstance(x, Sym) and x.ty == "str"):
+        used("pathlib.Path(str): .name is an (uninterpreted) function of the path string")
+        return Obj("Path", {"str": x})
+    _raise("TypeError", "expected str, bytes or os.PathLike object")
+
+
 def exec_with(ex, node, fr):
-    raise Unsupported("with statement")
+    if len(node.items) != 1:
+        raise Unsupported("with statement with several items")
+    item = node.items[0]
+    ctx = ex.eval(item.context_expr, fr)
+    if not isinstance(ctx, FileV):
+        raise Unsupported("with statement over a non-file context manager")
+    if item.optional_vars is not None:
+        ex.assign(item.optional_vars, ctx, fr)
+    try:
+        ex.exec_block(node.body, fr)
+    finally:
+        io_log(ex).append(("close", ctx))
 
 
 def dict_comprehension(ex, node, fr):
